@@ -229,8 +229,15 @@ def _tri_matrix(rng, n, upper):
     mask = np.triu(np.ones((n, n)), 1) if upper else np.tril(np.ones((n, n)), -1)
     c *= mask[..., None]
     dm = []
+    dkind = int(rng.integers(0, 4))
     for i in range(n):
         v = rng.standard_normal(4)
+        if dkind == 1:
+            v[0] = 0.0                                   # pure (zero scalar part) diagonal entries
+        elif dkind == 2:
+            ax = int(rng.integers(0, 4)); w = np.zeros(4); w[ax] = float(rng.choice([-1.0, 1.0])); v = w    # one axis, either sign
+        elif dkind == 3 and i % 2:
+            v[1:] = 0.0; v[0] = -abs(v[0]) - 0.1         # negative real
         mod = 10.0 ** rng.uniform(-6, 6)
         dm.append(mod)
         c[i, i] = v / np.linalg.norm(v) * mod
